@@ -437,3 +437,42 @@ func ladderNet(r *rand.Rand) *netSpec {
 	}
 	return s
 }
+
+// wideNet: a layered network of a hundred to a few hundred neurons - many inputs and outputs, two or three wide hidden layers, every
+// neuron fed by two to four neurons of the layer before (plus, now and then, a sensor or a bias directly); shallow, so that the
+// library's path searches stay cheap.
+func wideNet(r *rand.Rand, acts []neatmath.NodeActivationType) *netSpec {
+	layers := 2 + r.Intn(2)
+	width := 30 + r.Intn(71)
+	s := &netSpec{NIn: 4 + r.Intn(9), NBias: r.Intn(3), NHid: layers * width, NOut: 2 + r.Intn(7)}
+	ns, total := s.sensors(), s.total()
+	s.Acts = make([]neatmath.NodeActivationType, total)
+	for i := range s.Acts {
+		s.Acts[i] = acts[r.Intn(len(acts))]
+		if i < ns {
+			s.Acts[i] = neatmath.NullActivation
+		}
+	}
+	has := map[[2]int]bool{}
+	add := func(u, v int) {
+		if !has[[2]int{u, v}] {
+			has[[2]int{u, v}] = true
+			s.Edges = append(s.Edges, netEdge{From: u, To: v, W: r.NormFloat64() * 0.7})
+		}
+	}
+	for v := ns; v < total; v++ {
+		lo, hi := 0, ns // the layer before: the sensors, ...
+		if l := (v - ns) / width; v < ns+s.NHid && l > 0 {
+			lo, hi = ns+(l-1)*width, ns+l*width
+		} else if v >= ns+s.NHid {
+			lo, hi = ns+(layers-1)*width, ns+layers*width
+		}
+		for k := 0; k < 2+r.Intn(3); k++ {
+			add(lo+r.Intn(hi-lo), v)
+		}
+		if r.Intn(5) == 0 {
+			add(r.Intn(ns), v)
+		}
+	}
+	return s
+}
